@@ -14,11 +14,12 @@ import (
 	"crypto/tls"
 	"crypto/x509"
 	"crypto/x509/pkix"
+	"errors"
 	"fmt"
 	"math/big"
 	"net"
-	"strings"
 	"sync"
+	"syscall"
 	"time"
 
 	"github.com/bluenviron/gortsplib/v5"
@@ -368,9 +369,10 @@ func startServer(scn Scn, max int, tap *Tap, h *handler) (*gortsplib.Server, str
 			s.UDPRTCPAddress = fmt.Sprintf("127.0.0.1:%d", p+1)
 		}
 		err = s.Start()
-		if err == nil || !strings.Contains(err.Error(), "address already in use") {
+		if err == nil || !errors.Is(err, syscall.EADDRINUSE) {
 			break
 		}
+		time.Sleep(time.Duration(50*(try+1)) * time.Millisecond)
 	}
 	if err != nil {
 		return nil, "", err
@@ -388,6 +390,8 @@ func newClient(scn Scn, max int, tap *Tap) *gortsplib.Client {
 	c := &gortsplib.Client{
 		MaxPacketSize:            max,
 		DisableRTCPSenderReports: true,
+		OnPacketsLost:            func(uint64) {},
+		OnDecodeError:            func(error) {},
 		ReadTimeout:              3 * time.Second,
 		WriteTimeout:             3 * time.Second,
 	}
